@@ -75,7 +75,7 @@ def main():
     os.makedirs(RP, exist_ok=True)
     index = S.SourceIndex()
     contracts, specs, rec, mods = load_contracts(index)
-    mine = {f: c for f, c in contracts.items() if c.prop == prop}
+    mine = {f: c for f, c in contracts.items() if c.prop == prop or prop in c.also}
     ledger_all = None
     known_file = load_json('known_findings.json', {'findings': [], 'fixed': []})
     known = {k['id']: k for k in known_file.get('findings', []) if k.get('property') == prop or prop in k.get('also', [])}
@@ -381,6 +381,7 @@ EXPLAIN = {
     'C06': 'Writer purity proved; the AFM round trip is bounded.',
     'C07': 'Writer purity proved; the FeatureIDE round trip is bounded.',
     'C08': 'Writer purity proved; the Glencoe round trip is bounded.',
+    'C09': 'FeatureIDE constraint elements are read with the truth value the format defines (proved for every element tree); the feature-tree walks of the four readers are bounded against independent emitters.',
     'C10': 'Purity of both exports proved (CNF chain proved under C18); the denotation of the exports is decided by independent interpreters (bounded).',
     'C11': 'Writer purity proved; the denotation of the Clafer export is decided by an independent interpreter (bounded).',
     'C12': 'Purity, determinism primitives, return-what-was-written and UTF-8 call sites proved on the source of the eight writers; byte-identity across processes is configuration sampling (bounded).',
